@@ -18,7 +18,7 @@ EXPLANATION = (
     'bounded symbolic execution of the real fdl.build(Partial) -> Partial.__build__ / ArgFactory.__build__ / '
     '_build_partial / _promote_arg_factory / _invoke_arg_factories / arg_factory.partial / _InvokeArgFactoryWrapper '
     'and of the calls of the built callable (CrossHair + z3): each argument slot (positional-only, '
-    'positional-or-keyword, *args elements, keyword-only, **kwargs entry) takes one of 16 nesting kinds, the kinds '
+    'positional-or-keyword, *args elements, keyword-only, **kwargs entry) takes one of 18 nesting kinds, the kinds '
     'of two slots are solver-enumerated per cube, two or three calls each override a solver-chosen subset of keywords '
     'with unbounded symbolic ints; results and aliasing across all calls are compared (canonical form of the list of '
     'all call results) with a closure-based reference model of functools.partial plus per-call factory invocation')
@@ -68,7 +68,9 @@ KINDS = ['value', 'Config', 'ArgFactory', '[ArgFactory, value]', "{'k': ArgFacto
          'ArgFactory(Config)', 'Partial(ArgFactory)', '[Config, value] (no factory)', '(ArgFactory, [ArgFactory], [value])',
          '[ArgFactory, same ArgFactory]', '[ArgFactory, equal ArgFactory]',
          '[bare ArgFactory, equal bare ArgFactory]', "[ArgFactory, {'d': value}, [value], {}] (factory-free siblings)",
-         'ArgFactory(fn, value) - positional arguments only', 'ArgFactory(fn, ArgFactory, value) - positional, nested']
+         'ArgFactory(fn, value) - positional arguments only', 'ArgFactory(fn, ArgFactory, value) - positional, nested',
+         'the very container object of slot a (slot a: [ArgFactory, value])',
+         "ArgFactory(x=[ArgFactory], y={'k': (ArgFactory,)}) - factories only inside containers of a factory"]
 NK = len(KINDS)
 
 
@@ -105,7 +107,11 @@ def spec(kind, v, tag):
     return ('list', [('fac', tag, {}), ('dict', {'d': ('val', v)}), ('list', [('val', v)]), ('dict', {})])
   if kind == 14:
     return ('facp', tag, [('val', v)])
-  return ('facp', tag, [('fac', tag + 'i', {}), ('val', v), ('list', [('val', v)])])
+  if kind == 15:
+    return ('facp', tag, [('fac', tag + 'i', {}), ('val', v), ('list', [('val', v)])])
+  if kind == 16:
+    return ('list', [('fac', tag, {}), ('val', v)])          # (slots b / e: replaced by slot a's object in c04_calls)
+  return ('fac', tag, {'x': ('list', [('fac', tag + 'i', {})]), 'y': ('dict', {'k': ('tuple', [('fac', tag + 'j', {})])})})
 
 
 def to_fdl(s, memo):
@@ -214,13 +220,17 @@ def c04_calls(fn: int, ka: int, kb: int, kc: int, ke: int, top: int, ncalls: int
   fn: 0 keyword slots a, b, c + **kw entry e; 1 positional-only p, a, two *args elements, c; 2 a class.
   top: 0 fdl.Partial at the root; 1 the Partial sits inside a Config argument list (built as part of a larger graph).
   m_i: bit 0 overrides b (fn 1: nothing), bit 1 overrides c, bit 2 overrides e (fn 1: appends a call-time positional).
-  require: 0 <= fn <= 2 and 0 <= ka <= 15 and 0 <= kb <= 15 and 0 <= kc <= 15 and 0 <= ke <= 15 and 0 <= top <= 1
+  require: 0 <= fn <= 2 and 0 <= ka <= 17 and 0 <= kb <= 17 and 0 <= kc <= 17 and 0 <= ke <= 17 and 0 <= top <= 1
   require: 1 <= ncalls <= 3 and 0 <= m1 <= 7 and 0 <= m2 <= 7 and 0 <= m3 <= 7
   """
   ka, kb, kc, ke = _conc(ka, 0, NK - 1), _conc(kb, 0, NK - 1), _conc(kc, 0, NK - 1), _conc(ke, 0, NK - 1)
   fn, ncalls = _conc(fn, 0, 2), _conc(ncalls, 1, 3)
   masks = [_conc(m1, 0, 7), _conc(m2, 0, 7), _conc(m3, 0, 7)][:ncalls]
   specs = {'a': spec(ka, v, 'A'), 'b': spec(kb, v + 1, 'B'), 'c': spec(kc, v + 2, 'C'), 'e': spec(ke, v + 3, 'E')}
+  # kind 16 in another slot: that argument is the very object slot a holds (one container reachable from two arguments)
+  for slot, kk in (('b', kb), ('c', kc), ('e', ke)):
+    if kk == 16:
+      specs[slot] = specs['a']
   memo = {}
   if fn == 1:
     part = fdl.Partial(f1, to_fdl(specs['a'], memo), to_fdl(specs['b'], memo), to_fdl(specs['e'], memo), v + 9,
